@@ -42,10 +42,18 @@ func pgStartup(version uint32, kv ...string) []byte {
 func WinboxAuth(user string, parity byte) []byte { return winboxAuth(user, parity) }
 
 func winboxAuth(user string, parity byte) []byte {
-	body := append([]byte(user), 0)
-	for i := 0; i < 32; i++ {
-		body = append(body, byte(0xA0+i))
+	key := make([]byte, 32)
+	for i := range key {
+		key[i] = byte(0xA0 + i)
 	}
+	return WinboxAuthKey(user, key, parity)
+}
+
+// WinboxAuthKey is WinboxAuth with a given 32-byte public key (which may contain the
+// delimiter value 0x00: only the FIRST zero byte of the body ends the user name).
+func WinboxAuthKey(user string, key []byte, parity byte) []byte {
+	body := append([]byte(user), 0)
+	body = append(body, key...)
 	body = append(body, parity)
 	var out []byte
 	for i := 0; len(body) > 0; i++ {
